@@ -43,28 +43,8 @@ Definition c04_corr_ok (c : list cop * list cev) : bool := list_eqb cev_eqb (c04
 Definition c04_chk_ok (c : list cop * list cev) : bool := chk_C04 (snd c).
 
 (* ---------------- family kv ---------------- *)
-From Rosmar Require Import Json Crc Kv Store.
+From Rosmar Require Import Json Crc Kv Store Trace.
 
-Definition err_eq_dec : forall a b : err, {a = b} + {a <> b}. Proof. decide equality. Defined.
-Definition fopcode_eq_dec : forall a b : fopcode, {a = b} + {a <> b}. Proof. decide equality. Defined.
-Definition sspair_eq_dec : forall a b : string * string, {a = b} + {a <> b}.
-Proof. decide equality; apply string_dec. Defined.
-Definition resp_eq_dec : forall a b : resp, {a = b} + {a <> b}.
-Proof.
-  decide equality; try apply N.eq_dec; try apply string_dec; try apply bool_dec; try apply err_eq_dec;
-    try (apply list_eq_dec; apply sspair_eq_dec).
-  decide equality; apply string_dec.
-Defined.
-Definition fevent_eq_dec : forall a b : fevent, {a = b} + {a <> b}.
-Proof.
-  decide equality; try apply N.eq_dec; try apply string_dec; try apply bool_dec; try apply fopcode_eq_dec;
-    try (apply list_eq_dec; apply sspair_eq_dec).
-Defined.
-Definition obsrow_eq_dec : forall a b : obsrow, {a = b} + {a <> b}.
-Proof.
-  decide equality; try apply resp_eq_dec; try apply bool_dec.
-  decide equality; apply fevent_eq_dec.
-Defined.
 Definition snapshot_eq_dec : forall a b : snapshot, {a = b} + {a <> b}.
 Proof.
   decide equality.
@@ -144,4 +124,4 @@ Definition kv_explain (c : scase * list ostep) : option kv_diff + string :=
   | Some (i, None, _) => inr "the implementation trace is longer than the model's (extra feed events after the end?)"
   end.
 
-Definition kv_chk_ok (c : scase * list ostep) : bool := true.  (* replaced by Trace.v checkers *)
+Definition kv_chk_ok (c : scase * list ostep) : bool := chk_all_kv c.
